@@ -30,6 +30,7 @@ func propC07() *Property {
 			{ID: "C07.R5", Title: "Backspace removes what one key press appended (a rune)", Floor: 2, Run: c07R5},
 			{ID: "C07.R6", Title: "every history entry is a page of its own", Floor: 1, Run: c07R6},
 			{ID: "C07.R7", Title: "a background load is delivered to the page it was started for (in-flight flag pairing; same instances as C08.R9)", Floor: 8, Run: c08R9},
+			{ID: "C07.R9", Title: "when the media hook ends it touches the input mode only if the UI is still showing `opening`", Floor: 2, Run: c07R9},
 			{ID: "C07.R8", Title: "a number typed by the user can only select a link that was shown with it: a link list that comes with an error is empty (same instances as C12.R7)", Floor: 3, Run: c12R7},
 		},
 	}
@@ -896,4 +897,89 @@ func anchorKeyOf(fn *ssa.Function) string {
 		}
 	}
 	return fn.Pkg.Pkg.Path() + "." + fn.Name()
+}
+
+// c07R9: while the media hook runs the UI stays usable (mode `opening` accepts
+// keys), so the goroutine that waits for the hook must leave mode and buffer
+// alone unless the UI is still in `opening` when the hook ends — otherwise a
+// command being typed is wiped and the rest of it runs as navigation keys
+// (seed C07-1r9: the reset moved into a `defer` registered above the guard).
+// Every store into State.mode / State.buffer in the goroutine(s) started by
+// openExternally is dominated by the fact `s.mode == K`, K being the mode
+// openExternally itself sets before it starts them; a store inside a deferred
+// closure is not dominated by anything that happens after the defer statement.
+func c07R9(c *Ctx) {
+	P := c.P
+	fn := P.Method("servitor/ui", "State", "openExternally")
+	modeF := P.Field("servitor/ui", "State", "mode")
+	bufF := P.Field("servitor/ui", "State", "buffer")
+	// K: the constant stored into mode by openExternally itself
+	var K *ssa.Const
+	eachInstr(fn, func(_ *ssa.BasicBlock, _ int, in ssa.Instruction) {
+		if st, ok := in.(*ssa.Store); ok {
+			if fa, ok := st.Addr.(*ssa.FieldAddr); ok && fieldOf(fa) == modeF && K == nil {
+				K, _ = st.Val.(*ssa.Const)
+			}
+		}
+	})
+	if K == nil {
+		c.bad(FuncName(fn)+"/opening-mode", P.Pos(fn.Pos()), FuncName(fn), "openExternally does not set a constant mode before it starts the hook")
+		return
+	}
+	var goroutines []*ssa.Function
+	eachInstr(fn, func(_ *ssa.BasicBlock, _ int, in ssa.Instruction) {
+		if g, ok := in.(*ssa.Go); ok {
+			if mc, ok := g.Call.Value.(*ssa.MakeClosure); ok {
+				goroutines = append(goroutines, mc.Fn.(*ssa.Function))
+			} else if sc := g.Call.StaticCallee(); sc != nil && P.IsServitorFunc(sc) {
+				goroutines = append(goroutines, sc)
+			}
+		}
+	})
+	n := 0
+	for _, g := range goroutines {
+		// deferred closures of g
+		deferred := map[*ssa.Function]bool{}
+		eachInstr(g, func(_ *ssa.BasicBlock, _ int, in ssa.Instruction) {
+			if d, ok := in.(*ssa.Defer); ok {
+				if mc, ok := d.Call.Value.(*ssa.MakeClosure); ok {
+					deferred[mc.Fn.(*ssa.Function)] = true
+				}
+			}
+		})
+		for _, f := range append([]*ssa.Function{g}, Closures(g)...) {
+			fname := FuncName(f)
+			eachInstr(f, func(b *ssa.BasicBlock, _ int, in ssa.Instruction) {
+				st, ok := in.(*ssa.Store)
+				if !ok {
+					return
+				}
+				fa, ok := st.Addr.(*ssa.FieldAddr)
+				if !ok || (fieldOf(fa) != modeF && fieldOf(fa) != bufF) {
+					return
+				}
+				n++
+				okGuard := false
+				if !deferred[f] && f == g {
+					for _, fact := range factsOf(f).At(b) {
+						cmp, ok := fact.Cmp()
+						if !ok || cmp.Op != token.EQL {
+							continue
+						}
+						for _, side := range [][2]ssa.Value{{cmp.X, cmp.Y}, {cmp.Y, cmp.X}} {
+							k, isC := side[1].(*ssa.Const)
+							if isC && k.Value != nil && K.Value != nil && k.Value.ExactString() == K.Value.ExactString() && loadedField(side[0]) == modeF {
+								okGuard = true
+							}
+						}
+					}
+				}
+				c.check(okGuard, fname+"/hook-end:"+fieldOf(fa).Name(), P.InstrPos(in), fname, "written only where the UI is known to be still in the mode openExternally set",
+					"when the media hook ends, State."+fieldOf(fa).Name()+" is written on a path that does not know the UI to be still in `opening` (a deferred reset runs on the early return too): a command the user is typing meanwhile is wiped and its remaining keys act as navigation")
+			})
+		}
+	}
+	if n == 0 {
+		c.bad(FuncName(fn)+"/hook-end", P.Pos(fn.Pos()), FuncName(fn), "the goroutine that waits for the media hook and resets the mode is not found")
+	}
 }
